@@ -150,6 +150,16 @@ func child(a lib.Args) {
 					out.Distribution["ws:"+s.W]++
 				}
 			}
+			if c.Stay > 0 {
+				out.Distribution["long-lived-connection-seconds"] += int(c.Stay / 1e9)
+				if c.Trace != nil {
+					out.Distribution["long-lived-connection-echoes"] += len(c.Trace.EchoSeq)
+				}
+			}
+			if len(c.Sched) >= 60 {
+				out.Distribution["long-outage-schedules"]++
+				out.Distribution["long-outage-attempts"] += len(c.Obs)
+			}
 			out.Distribution["attempts"] += len(c.Obs)
 			for _, o := range c.Obs {
 				if !o.Timed {
